@@ -349,7 +349,12 @@ static std::vector<Fine> ssrb_fines(bool thorough)
     for (int T : Ts)
       {
         const int D = dr.first, R = dr.second;
-        if (T > 0 && (D > 12 || R > 3) && T > 5) continue;  // bound: large TOF only on the smaller scanners
+        // bound (thorough): the TOF loop of SSRB does not interact with the segment/axial matching, so the number of unmashed TOF bins is
+        // bounded by the scanner size (cost per configuration ~ bins^2): T<=9 for D*R<=24, T<=5 for D*R<=36, T<=3 for D*R<=48, non-TOF above
+        if (T > 0 && (D > 12 || R > 3) && T > 5) continue;
+        if (T > 5 && D * R > 24) continue;
+        if (T > 3 && D * R > 36) continue;
+        if (T > 0 && D * R > 48) continue;
         for (int span = 1; span <= 2 * R - 1; span += 2)
           for (int md = (span - 1) / 2; md <= R - 1; ++md)
             for (int vm = 1; vm <= D / 2; ++vm)
